@@ -56,7 +56,7 @@ def zeroJoiner (o : Obs) : Bool := !o.ran && o.val.isNone && o.err.isNone && !o.
 
 /-- a call that can only have led a flight whose lookup failed (cancelled context): no visible event between its
 invocation and its return. -/
-def lkLeader (o : Obs) : Bool := o.lkerr && o.cx = 2 && !o.ran
+def lkLeader (o : Obs) : Bool := o.lkerr && o.deadCtx && !o.ran
 
 /-! ### SingleFlight -/
 namespace SFx
@@ -299,7 +299,7 @@ def forceDelete (line : Nat) (p : Tid) (pid : Nat) : M Unit := do
       if ((← pcOf g) = .l0 ∨ (← pcOf g) = .p0) ∧ !o.ran ∧ g ≠ p ∧
           ((source o = some pid ∧ !o.lkerr) ∨ ((o.panicked ∨ zeroJoiner o) ∧ st.s.pn p ∧ st.s.key g = st.s.key p)
             -- (a call with a cancelled context of its own is not pulled in: it can lead a flight of its own later)
-            ∨ (o.lkerr ∧ o.cx ≠ 2 ∧ leaderIsLk ∧ st.s.key g = st.s.key p)) then
+            ∨ (o.lkerr ∧ !o.deadCtx ∧ leaderIsLk ∧ st.s.key g = st.s.key p)) then
         preMiss line g
         advs line g [.l1, .w0, .w1]
     if (← pcOf p) = .g6 then advs line p [.g7, .g8, .m2, .d0]
@@ -352,11 +352,11 @@ def onEvent (e : Ev) : M Unit := do
     let st ← get
     let urgent := st.cur.filter fun (g', q) => g' ≠ g && q.lkerr && !q.ran && q.key = o.key && st.s.pc g' = .l0 && q.ret < fe
     for (g', q) in urgent do
-      if q.cx = 2 && (← pcOf g') = .l0 then
+      if q.deadCtx && (← pcOf g') = .l0 then
         failLookupFlight ln g'
         forceDelete ln g' q.id
     let st ← get
-    if urgent.any (fun (g', q) => q.cx ≠ 2 && st.s.pc g' = .l0) then
+    if urgent.any (fun (g', q) => !q.deadCtx && st.s.pc g' = .l0) then
       match earliest (← lkCandidates o.key) with
       | some (p, q) =>
         failLookupFlight ln p
@@ -399,7 +399,7 @@ def onEvent (e : Ev) : M Unit := do
             else forceDelete ln p pid
           | none => pure ()
         if (← pcOf g) = .l0 then
-          if o.cx = 2 then
+          if o.deadCtx then
             failLookupFlight ln g
           else
             match earliest ((← lkCandidates o.key).filter (·.1 ≠ g)) with
